@@ -127,3 +127,127 @@ Print Assumptions C04_assign_single_bit.
 Definition C04_full (emit : vopts -> nv -> vdoc) : Prop :=
   forall d n o, elab d = Ok n -> o_definition_list o = None -> o_write_blackbox o = true ->
     exists n', elab (emit o n) = Ok n' /\ same_netlist n n'.
+
+(* ---------------------------------------------------------------------------------------------------------------
+   The document-level WRITER (Fmt/VEmit.v emit : vopts -> nv -> wres vdoc, the model of Composer._compose; tied to
+   the composer on every C04 run by harness/verilog_emit.py: the text of the real composer, read token by token into
+   a vdoc, equals emit of the ordered value of the same netlist). Writer and reader compose: emit writes the document
+   type that VElab.elab reads.
+   Proved: the VERIFIED CHECKER of one round trip - rt_check o n = true certifies that the document written for n
+   under the options o is accepted by the reader and gives a netlist with the same top, and per written module the
+   same ordered ports (name, direction, width, lower index), the same instances (definition, parameters,
+   attributes) and bit by bit the same connectivity. The run evaluates rt_check (extracted) on every netlist it
+   writes and compares the verdict with the real write/read cycle; `writable` (the class of the general statement)
+   is evaluated too and must imply rt_check.
+   Not proved: the general statement C04_emit_roundtrip_full (for every writable value the round trip succeeds). *)
+From SV Require Import Fmt.VSpec Fmt.VEmit Proofs.VEmitRound.
+
+Theorem C04_emit_roundtrip_checked : forall o n,
+  rt_check o n = true -> exists d n', emit o n = WOk d /\ elab d = Ok n' /\ same_conn o n n'.
+Proof. exact rt_check_sound. Qed.
+Print Assumptions C04_emit_roundtrip_checked.
+
+(* the boolean comparison used by the checker decides the relation of the property *)
+Theorem C04_same_conn_decided : forall o n n', same_conn_b o n n' = true -> same_conn o n n'.
+Proof. exact same_conn_b_sound. Qed.
+Print Assumptions C04_same_conn_decided.
+
+Theorem C04_same_conn_def_decided : forall a b, same_conn_def_b a b = true -> same_conn_def a b.
+Proof. exact same_conn_def_sound. Qed.
+Print Assumptions C04_same_conn_def_decided.
+
+(* a three-level design (VEmitRound.ex_src: 4-bit and 3-bit buses, a concatenation on a partially connected port,
+   an unconnected port, a part select, an instance parameter, attributes, a single-bit assign) read by the reader
+   model, written by the writer model under two option sets (default; definition_list + defparam), read again *)
+From Coq Require Import String.
+Local Open Scope string_scope.
+Example C04_emit_roundtrip_witness :
+  match elab ex_src with
+  | Ok n =>
+      writable ex_opts n = true /\ rt_check ex_opts n = true /\ rt_check ex_opts_dp n = true /\
+      match emit ex_opts n with
+      | WOk (m :: _) =>
+          nth_error (vm_body m) 9 =
+            Some (IInst (S_ "sub") (S_ "u1") [(S_ "W", S_ "3")] []
+                    (CNamed [(S_ "x", Some (DCat [DBit (S_ "a") 1; DId (S_ "b")]));
+                             (S_ "z", Some (DAtom (DPart (S_ "t") 1 0))); (S_ "q", None)]))
+          /\ nth_error (vm_body m) 8 = Some (IAssign (DId (S_ "n1")) (DBit (S_ "a") 3))
+      | _ => False
+      end
+  | Err _ => False
+  end.
+Proof. vm_compute. repeat split; reflexivity. Qed.
+Local Close Scope string_scope.
+From Coq Require Import List.
+
+(* The statement at full strength for the modelled writer: on the decidable class `writable` (every port of a
+   written module has a direction and lies pin by pin on the cable of its own name; emit succeeds - which excludes
+   multi-bit assigns, unnamed ports and names that need escaping) the written document is accepted and gives the
+   same connectivity. NOT proved; on every run `writable o n = true -> rt_check o n = true` is evaluated on every
+   netlist written, and rt_check's verdict is a proof for that netlist (C04_emit_roundtrip_checked). *)
+Definition C04_emit_roundtrip_full : Prop :=
+  forall o n, wf_nv n -> writable o n = true ->
+    exists d n', emit o n = WOk d /\ elab d = Ok n' /\ same_conn o n n'.
+
+(* Per-construct lemmas of the writer model, lifting the mechanism theorems above to Fmt/VEmit.v / Fmt/VElab.v. *)
+From SV Require Import Proofs.VEmitLemmas.
+
+(* a cable declaration: the item emit writes for a cable of width >= 1 is read by the reader model's
+   parse_cable_declaration (VElab.wire_decl), in a module that does not have the cable yet, as exactly that cable -
+   name, lower index, width, type, attributes (lifts C04_decl_inverse) *)
+Theorem C04_cable_decl_emit_inverse : forall c d,
+  (1 <= nc_width c)%nat -> has_glob (nc_name c) = false -> find_cable (nc_name c) d = None ->
+  exists rg, emit_cable c = WOk (IWire (nc_type c) rg [nc_name c] (nc_attrs c)) /\
+    wire_decl (nc_type c) rg (nc_attrs c) [nc_name c] d =
+      Ok (set_cables d (ed_cables d ++
+            [{| ec_name := nc_name c;
+                ec_b := {| b_lo := nc_lower c; b_items := seq 0 (nc_width c); b_next := nc_width c |};
+                ec_type := Some (nc_type c); ec_attrs := dict_of (nc_attrs c) |}])).
+Proof. exact emit_cable_elab. Qed.
+Print Assumptions C04_cable_decl_emit_inverse.
+
+(* a header port of the class `writable` is written by its name alone *)
+Theorem C04_header_plain : forall d p,
+  port_plain d p = true -> exists nm, np_label p = LName nm /\ emit_header_port d p = WOk (HPort None None nm).
+Proof. exact header_plain. Qed.
+Print Assumptions C04_header_plain.
+
+(* one named port connection of an instance (lifts C04_port_emit_inverse to emit_conn): pins in port order on the
+   wires cs (any cables, any order), r unconnected pins at the high end: the connection written - empty, id, id[i],
+   id[h:l] or {...} as the composer chooses - is read back and aligned so that the wire of pin k is on pin k again *)
+Theorem C04_conn_emit_inverse : forall d iname p nm (cs : list wire) (r : nat) (pins : list nat),
+  np_label p = LName nm -> (1 <= np_width p)%nat ->
+  pin_wires d (EInst iname (np_label p)) p = map Some cs ++ repeat None r ->
+  (forall c i, In (c, i) cs -> in_cable (def_env d) c i) ->
+  Permutation pins (seq 0 (length cs + r)) ->
+  exists txt t,
+    emit_conn d iname p = WOk (nm, ptext_expr d txt) /\ read_port (def_env d) txt = Some t /\
+    align Z.of_nat pins t = Some (combine (rev cs) (rev (seq 0 (length cs)))).
+Proof. exact conn_emit_inverse. Qed.
+Print Assumptions C04_conn_emit_inverse.
+
+(* the skeleton of what emit writes, for EVERY netlist value: the document is the list of the written modules in the
+   order of the _write_module calls, each from the definition of its name; a module carries the definition's name,
+   `celldefine flag, parameters, attributes, one header entry per port in port order; a primitive has port
+   declarations only *)
+Theorem C04_emit_document : forall o n d,
+  emit o n = WOk d ->
+  Forall2 (fun x m => exists dd, find_ndef n x = Some dd /\ emit_module o n dd = WOk m /\ vm_name m = x)
+          (written_order o n) d.
+Proof. exact emit_document. Qed.
+Print Assumptions C04_emit_document.
+
+Theorem C04_emit_module_skeleton : forall o n dd m,
+  emit_module o n dd = WOk m ->
+  vm_name m = nd_name dd /\ vm_cell m = is_prim dd /\ vm_params m = nd_params dd /\ vm_attrs m = nd_attrs dd /\
+  Forall2 (fun p h => emit_header_port dd p = WOk h) (nd_ports dd) (vm_header m) /\
+  (is_prim dd = true -> emit_body_ports dd (nd_ports dd) [] = WOk (vm_body m)).
+Proof. exact emit_module_skeleton. Qed.
+Print Assumptions C04_emit_module_skeleton.
+
+(* the header of a module of the class `writable` is the list of its port names, in port order *)
+Theorem C04_writable_header : forall o n dd m,
+  forallb (port_plain dd) (nd_ports dd) = true -> emit_module o n dd = WOk m ->
+  Forall2 (fun p h => exists nm, np_label p = LName nm /\ h = HPort None None nm) (nd_ports dd) (vm_header m).
+Proof. exact writable_header. Qed.
+Print Assumptions C04_writable_header.
